@@ -57,8 +57,8 @@ CLAIMED = {
     "C11": dict(
         text="Proof: C11_abort_in_params - during Params an AbortRequest for the request in progress is consumed entirely, exactly one "
              "EndRequest(RequestComplete, 0, id) is emitted and the parser returns to Header, so no request is produced and no handler can be "
-             "invoked; an abort for any other id is skipped without reply (any body/padding). Later: C11_read_fails_with_aborted - a handler read "
-             "returns ConnectionAborted exactly when the parser stands at this request's AbortRequest header; C11_abort_sticky - the error repeats "
+             "invoked; an abort for any other id is skipped without reply (any body/padding). Later: C11_read_fails_with_aborted(_no_fault) - a handler read "
+             "returns ConnectionAborted because the parser stands at this request's AbortRequest header (Request.aborted is then set: C11_aborted_flag_source/_sticky) or because a reply flush failed with a transport error of that kind (flag untouched; exactly the former on fault-free transports); C11_abort_sticky - the error repeats "
              "on every later read without touching the transport; C11_prefix_before_error - input delivered before the error is a prefix of what "
              "the client sent; C11_boundary_ignores_abort + C11_one_endrequest_and_reuse - close() passes the retained abort header, writes "
              "exactly one EndRequest with the given status and, with KeepConn, returns the connection for reuse (the C07 reuse law). Tie: abort "
@@ -194,19 +194,24 @@ CLAIMED = {
         note="the k-fold composition itself is not stated as one theorem; into_request_parser with pending output is the crate's debug_assert (contract)."),
     "C07": dict(
         text="Proof on the connection model (Async/Conn.v: Token::run, parse_request, Request::{poll_input, poll_output, writeable, record_boundary, "
-             "close}, StreamWriter writes, scripted handlers/transport/gated client), partial: C07_epilogue - for every transport behaviour close "
-             "writes, after skipping to a record boundary without writing, exactly the pending management replies, the empty Stdout and Stderr "
-             "records and one EndRequest with the exit status' protocol/application status and the request id; C07_reuse / C07_close_cases - the "
-             "connection is handed back for the next request IF AND ONLY IF the request carried KeepConn and every write succeeded; without "
-             "KeepConn it ends (ConnectionReset) after the complete epilogue; a failed or zero-length write leaves a proper prefix and ends the "
-             "connection with that error; a read error while skipping writes nothing. The clause 'exactly one handler invocation seeing exactly "
-             "that request' is decided by the correspondence check (the model agrees with the real Token::run on every generated connection: "
-             "handler events, transport log, bytes consumed, poll count) + an independent oracle that decodes the transport log; these clauses "
-             "found defect F3 (leftover filling the buffer => connection dropped despite KeepConn), repaired in /repo fd29a7b; its replay is in "
-             "corpus/C07 and runs first. Partial as to the runtime: executor/waker protocol, rustc's async lowering, futures-util select/Mutex are "
-             "modelled by contract.",
-        design="6/C07, 13.3", technique="Coq proof on an executable connection model (write path, epilogue, reuse decision) + differential execution of scripted connections on a deterministic executor with log-decoding oracle",
-        note="one-call clause over the whole loop not yet proved (correspondence + oracle); single task; handlers await each I/O op to completion."),
+             "close}, StreamWriter writes, scripted handlers/transport/gated client): C07_handler_sees_exactly_the_request - Token::parse_request "
+             "is a read schedule of the request parser whose chunks are the transport reads (C07_parse_request_is_a_schedule), a reused "
+             "connection's parser with leftover L behaves like a fresh one fed L first (C07_leftover_as_fed), hence by C01: whenever the client's "
+             "stream (leftover ++ what it still delivers) begins with a well-formed preamble and a handler is started, it sees exactly the "
+             "transmitted id, role, flags and environment, exactly the owed management replies have been written, and the stream parser starts "
+             "with exactly the bytes after the preamble - for every transport behaviour; C07_epilogue - close writes, after skipping to a record "
+             "boundary without writing, exactly the pending management replies, the empty Stdout and Stderr records and one EndRequest with the "
+             "exit status' protocol/application status and the request id; C07_reuse / C07_close_cases - the connection is handed back IF AND "
+             "ONLY IF the request carried KeepConn and every write succeeded; otherwise ConnectionReset after the complete epilogue, or the "
+             "write error after a proper prefix; a read error while skipping writes nothing. 'Exactly one handler invocation per request' is "
+             "the shape of Token::run itself (one run_handler and one do_close per successful parse_request in Conn.run_loop), tied to the code "
+             "by the correspondence check (handler events, transport log, bytes consumed, poll count on every generated connection) + an "
+             "independent log-decoding oracle. Findings: F3 (leftover filling the buffer => connection dropped despite KeepConn, /repo fd29a7b) "
+             "and F4 (a transport error of kind ConnectionAborted taken for a client abort => reuse after an I/O error, /repo b370518), both "
+             "repaired; replays in corpus/C07, corpus/C12 run first. Partial as to the runtime: executor/waker protocol, rustc's async lowering, "
+             "futures-util select/Mutex are modelled by contract.",
+        design="6/C07, 13.3", technique="Coq proof on an executable connection model (parse_request as a read schedule composed with the C01 theorem; write path, epilogue, reuse decision) + differential execution of scripted connections on a deterministic executor with log-decoding oracle",
+        note="the composition 'k requests in sequence' is by the loop's shape and correspondence, not one theorem; single task; handlers await each I/O op to completion."),
     "C10": dict(
         text="Proof: single writer - for a writer's write_all the transport log grows by exactly the records of the data's <= 65535-byte chunks "
              "(C10_exact), for every way the transport splits or delays the vectored write incl. the first-slice fallback (C10_any_split); each "
@@ -222,16 +227,22 @@ CLAIMED = {
         design="6/C10", technique="Coq proof (write loops: exact bytes for every transport split; inductive lock-tenure invariant over all poll orders) + differential execution of scripted multi-writer poll orders with record-decoding oracle",
         note="futures-util Mutex modelled as an owner field taken by whoever polls first while free (no hand-off, no fairness claimed); writers are created before the schedule starts."),
     "C12": dict(
-        text="Proof on the connection model (Async/Conn.v): C12_terminates - for EVERY read script and write script (read errors, write errors, "
-             "zero-length writes, spurious not-ready results at any call index), every client byte string cut off at any offset, every buffer size and "
-             "every list of well-formed handler scripts the task returns: no Rust panic site and no loop bound of the model is reachable "
-             "(C12_total for gated clients: the only other outcome is waiting for a client that waits; C12_total_lax: rejected set_stream in a "
-             "handler is the handler's own documented panic); C12_write_all / C12_writer_prefix - a failed write leaves only a prefix of the "
-             "bytes of that write, i.e. a prefix of a well-formed record sequence, and is reported. 'No handler for an incomplete preamble' and "
-             "'unexpected-EOF instead of a short success' are decided by the correspondence check (EOF at every byte offset of short connections, a "
-             "read error at every read index, a write error / zero write at every write index) + oracle; their proofs are pending.",
-        design="6/C12", technique="Coq proof (totality of the connection model under all fault scripts; write path) + exhaustive fault-position enumeration per scripted connection through model and crate",
-        note="two clauses (no handler on partial preamble; EOF is an error) by correspondence + oracle only; handlers propagate write errors; single task."),
+        text="Proof on the connection model (Async/Conn.v): C12_terminates - for EVERY read script and write script (read errors, write errors of two "
+             "kinds, zero-length writes, spurious not-ready results at any call index), every client byte string cut off at any offset, every "
+             "buffer size and every list of well-formed handler scripts the task returns: no Rust panic site and no loop bound of the model is "
+             "reachable (C12_total for gated clients: the only other outcome is waiting for a client that waits; C12_total_lax: rejected "
+             "set_stream in a handler is the handler's own documented panic); C12_no_handler_for_partial_preamble - if everything the client will "
+             "ever deliver (leftover included) is a proper prefix of a well-formed preamble, parse_request never hands over to a handler, "
+             "whatever the read/write patterns; C12_parse_request_eof - EOF between requests ends the connection quietly, reads happen only "
+             "after the replies were written; C12_empty_read_means_end_of_stream / C12_poll_input_cases - a handler read returns Ok(0) into a "
+             "non-empty buffer only at the stream's end, a dry transport yields UnexpectedEof or the transport's error; C12_write_all / "
+             "C12_writer_prefix - a failed write leaves only a prefix of the bytes of that write, i.e. a prefix of a well-formed record "
+             "sequence, and is reported. 'Nothing is written after a failed write' for propagating handlers is decided by the correspondence "
+             "check + oracle (a write error / zero write / ConnectionAborted-kind error at every write index followed by counted accept-all "
+             "calls; handlers with propagating reads); it exposed finding F4 (repaired, /repo b370518; replay corpus/C12). Also: EOF at every "
+             "byte offset of short connections, a read error at every read index.",
+        design="6/C12, 13.3", technique="Coq proof (totality of the connection model under all fault scripts; parse_request composed with the request-parser theorems; read/write accounting) + exhaustive fault-position enumeration per scripted connection through model and crate",
+        note="'nothing written after a failed write' at run-loop level by correspondence + oracle (judged on runs where the handler swallowed no error); single task."),
     "C13": dict(
         text="Proof on the token model (Async/Tokens.v: permit counter + event-listener queue with notify(1) being a no-op while a listener is already "
              "notified, notified listeners passing the notification on when dropped, the acquire future trying the counter first - all modelled from "
